@@ -12,13 +12,6 @@ Definition single (ds : list drec) : Prop :=
 Lemma single_cur d p r : d_vers d = [VPut p r] -> cur d = Some (mkl (d_id d) p r).
 Proof. unfold cur. intros ->. reflexivity. Qed.
 
-Lemma single_not_poisoned sch cols t ds : single ds -> poisoned sch cols t ds = false.
-Proof.
-  intros S. unfold poisoned. destruct (existsb _ ds) eqn:E; auto.
-  apply existsb_exists in E as [d [Hin H]]. destruct (S d Hin) as (p & r & V).
-  rewrite V in H. simpl in H. discriminate.
-Qed.
-
 Lemma single_ever_holds sch cols t d :
   (exists p r, d_vers d = [VPut p r]) -> ever_had sch cols t d = holds_now sch cols t d.
 Proof.
@@ -59,12 +52,6 @@ Proof.
   destruct (bytes_eqb (d_id d) id) eqn:E; [discriminate|]. rewrite IH; auto.
 Qed.
 
-Lemma others_of_absent ds id : find_doc ds id = None -> others_of ds id = ds.
-Proof.
-  intros H. unfold others_of. induction ds as [|d ds IH]; simpl; auto.
-  simpl in H. destruct (bytes_eqb (d_id d) id) eqn:E; [discriminate|]. simpl. rewrite IH; auto.
-Qed.
-
 Lemma lives_app a b : lives (a ++ b) = lives a ++ lives b.
 Proof. induction a as [|d a IH]; simpl; auto. destruct (cur d); simpl; rewrite IH; auto. Qed.
 
@@ -84,16 +71,32 @@ Proof.
   - intros H. destruct (IH H) as (d' & ? & ?); eauto.
 Qed.
 
+(* an admitted insert passed the first-entry check of every unique index *)
+Lemma uniq_checks_ix_insert st id r ixs : forall pd pd',
+  find_doc (st_docs st) id = None ->
+  uniq_checks_ix st true id r ixs pd = Some pd' ->
+  forall ix, In ix ixs -> ix_unique ix = true ->
+    uniq_check1 (st_sch st) (ix_cols ix) (tuple_of (st_sch st) (ix_cols ix) id r) (st_docs st) = true.
+Proof.
+  induction ixs as [|ix0 ixs IH]; simpl; intros pd pd' F H ix Hin U; [destruct Hin|].
+  rewrite F in H. simpl in H.
+  destruct (ix_unique ix0) eqn:U0.
+  - destruct (pend_has _ pd (ix_cols ix0) _); try discriminate.
+    destruct (uniq_check1 (st_sch st) (ix_cols ix0) _ (st_docs st)) eqn:C; try discriminate.
+    destruct Hin as [<-|Hin]; auto. eapply IH; eauto.
+  - destruct Hin as [<-|Hin]; [congruence|]. eapply IH; eauto.
+Qed.
+
 (* one insert keeps the invariant *)
-Lemma upsert1_insert_keeps st id p st' :
+Lemma upsert1_insert_keeps st id p pd st' pd' :
   single (st_docs st) -> uniq_okb st = true ->
-  upsert1 st true id p = Ok st' ->
+  upsert1 st true id p pd = Ok (st', pd') ->
   st_sch st' = st_sch st /\ single (st_docs st') /\ uniq_okb st' = true.
 Proof.
   intros S U H. unfold upsert1 in H.
   destruct (gen_row (s_fields (st_sch st)) p) as [r| |]; simpl in H; try discriminate.
   destruct (find_doc (st_docs st) id) as [d0|] eqn:F; simpl in H; try discriminate.
-  destruct (uniq_checks st true id r) eqn:UC; try discriminate.
+  destruct (uniq_checks st true id r pd) as [pd1|] eqn:UC; try discriminate.
   inversion H; subst; clear H. simpl.
   rewrite (put_version_new _ _ _ F).
   split; auto. split.
@@ -102,10 +105,8 @@ Proof.
     specialize (U ix Hix). destruct (ix_unique ix) eqn:IU; simpl in *; auto.
     rewrite lives_app. simpl. rewrite pairwise_snoc, U. simpl.
     (* the unique check of this index *)
-    unfold uniq_checks in UC. rewrite forallb_forall in UC. specialize (UC ix Hix).
-    rewrite IU, F in UC. simpl in UC.
-    unfold uniq_check1 in UC. rewrite (single_not_poisoned _ _ _ _ S) in UC.
-    rewrite (others_of_absent _ _ F) in UC.
+    pose proof (uniq_checks_ix_insert st id r _ pd pd' F UC ix Hix IU) as C1.
+    unfold uniq_check1 in C1.
     set (t := tuple_of (st_sch st) (ix_cols ix) id r) in *.
     apply forallb_forall. intros a Ha.
     apply in_lives in Ha as (d & Hd & Cd).
@@ -113,23 +114,23 @@ Proof.
     assert (HN : holds_now (st_sch st) (ix_cols ix) t d = false).
     { destruct (first_entry (st_sch st) (ix_cols ix) t (st_docs st) None) as [d1|] eqn:FE.
       - apply first_entry_spec in FE as [FE|[FE1 FE2]]; [discriminate|].
-        rewrite (single_ever_holds _ _ _ d1 (S d1 FE1)) in FE2. rewrite FE2 in UC. discriminate.
+        rewrite (single_ever_holds _ _ _ d1 (S d1 FE1)) in FE2. rewrite FE2 in C1. discriminate.
       - apply first_entry_spec in FE as [_ FE].
         rewrite <- (single_ever_holds _ _ _ d (S d Hd)). auto. }
     unfold holds_now in HN. rewrite Cd in HN. rewrite HN. reflexivity.
 Qed.
 
-Lemma insert_all_keeps l : forall st st',
-  single (st_docs st) -> uniq_okb st = true -> insert_all st l = Ok st' ->
+Lemma insert_all_keeps l : forall st pd st',
+  single (st_docs st) -> uniq_okb st = true -> insert_all st l pd = Ok st' ->
   st_sch st' = st_sch st /\ single (st_docs st') /\ uniq_okb st' = true.
 Proof.
-  induction l as [|[i d] l IH]; simpl; intros st st' S U H.
+  induction l as [|[i d] l IH]; simpl; intros st pd st' S U H.
   - inversion H; subst; auto.
   - destruct (has_key d doc_blob); try discriminate.
     destruct (has_key d (s_id (st_sch st))); try discriminate.
-    destruct (upsert1 st true i (with_id (st_sch st) d i)) as [st1| |] eqn:E; simpl in H; try discriminate.
-    destruct (upsert1_insert_keeps st i _ st1 S U E) as (S1 & S2 & S3).
-    destruct (IH st1 st' S2 S3 H) as (T1 & T2 & T3). split; [congruence|auto].
+    destruct (upsert1 st true i (with_id (st_sch st) d i) pd) as [[st1 pd1]| |] eqn:E; simpl in H; try discriminate.
+    destruct (upsert1_insert_keeps st i _ pd st1 pd1 S U E) as (S1 & S2 & S3).
+    destruct (IH st1 pd1 st' S2 S3 H) as (T1 & T2 & T3). split; [congruence|auto].
 Qed.
 
 Lemma step_insert_or_read_keeps st o :
@@ -140,8 +141,8 @@ Proof.
   destruct o as [l|q doc|q|name t|name|cols uniq|cols|q off|q off|id|id desc off lim];
     try discriminate; [unfold step|simpl..].
   - destruct l as [|p l']; [simpl; auto|]. cbv iota. generalize (p :: l'). intros L.
-    destruct (insert_all st L) as [st1| |] eqn:E; simpl; auto.
-    destruct (insert_all_keeps L st st1 S U E) as (_ & ? & ?). auto.
+    destruct (insert_all st L []) as [st1| |] eqn:E; simpl; auto.
+    destruct (insert_all_keeps L st [] st1 S U E) as (_ & ? & ?). auto.
   - destruct (engine_matched st q); simpl; auto.
   - destruct (engine_matched st q); simpl; auto.
   - destruct (find_doc (st_docs st) id); simpl; auto. destruct (cur d); simpl; auto.
